@@ -1859,7 +1859,10 @@ fn run_program(run: &Run, spec: &Spec, c15: bool) {
     }
     for o in &p.occs {
         match (&o.role, &o.resolved) {
-            (Role::ByBytes(_), Resolved::Def(_)) => ctx.count("uses_identified_by_emitted_bytes"),
+            (Role::ByBytes(_), Resolved::Def(d)) => {
+                ctx.count("uses_identified_by_emitted_bytes");
+                ctx.count(&format!("binding_of_use_in_{}_to_definition_in_{}", o.level, def_label(&p, *d)));
+            }
             (Role::ByBytes(_), Resolved::SymmetricOnly) => ctx.count("uses_without_emitted_bytes"),
             (Role::ByBytes(_), Resolved::Ambiguous) => ctx.count("uses_with_ambiguous_bytes"),
             _ => {}
@@ -1903,7 +1906,7 @@ pub fn run(ctx: &Ctx, replay: Option<&Value>) -> i32 {
         json!({
             "levels": 3, "definition_kinds": ["none", "label", "const"], "path_forms": FORMS,
             "wrappers": if ctx.tier.is_thorough() { WRAPS.to_vec() } else { vec!["none"] },
-            "orders": ["definitions-first", "uses-first"], "imports": IMPORTS,
+            "orders": ["definitions-first (all wrappers)", "uses-first (unwrapped use only)"], "imports": IMPORTS,
             "positions": if c15 { json!(["start", "middle", "end"]) } else { json!(["first char", "last char"]) },
             "new_names": if c15 { json!(["zz", "q (defined only in sibling scope `sib`)"]) } else { json!(null) },
         }),
